@@ -16,7 +16,7 @@ FAMILIES: Dict[str, Dict[str, Any]] = {
         "module": "MC_Routing",
         "const": dict(REAL, TimingOn="TRUE", Modes='{"inline", "deferred"}', Conns='{"a", "b", "c"}',
                       MaxQ=1, MaxDeaths=1, MaxEnv=3, TickSteps="{}", MaxNow=0, AllowOpen="FALSE",
-                      AllowFin="TRUE", AllowRst="FALSE", GenDepth=100),
+                      AllowFin="TRUE", AllowRst="FALSE", GenDepth=100, AnyW="TRUE"),
         "subst": {"Setup": "RSetup", "Alpha": "RAlpha"},
         "quick": dict(MaxEnv=2),
         "gen": dict(MaxEnv=6, MaxQ=2),
@@ -24,6 +24,19 @@ FAMILIES: Dict[str, Dict[str, Any]] = {
         "properties": ["PRoutingExact", "PSeqGapFree", "PNoTrace", "PClosedAtMostOnce", "POneClosedNotice",
                        "PFailureReported", "PNoNoticeForNotices", "PLoggerWaitedFor", "PAckExactlyOnce",
                        "PAckAddressed", "PAckCopiedToLoggers", "PNoAckOtherwise"],
+    },
+    "Identity": {
+        "module": "MC_Identity",
+        "const": dict(MaxModules=6, DynStart=3, MaxHosts=5, MaxMsgTypes=10000, TrafficChunk=64, MaxActive=256,
+                      TimingOn="TRUE", Modes='{"inline", "deferred"}', Conns='{"a", "b", "c", "d"}',
+                      MaxQ=2, MaxDeaths=0, MaxEnv=4, TickSteps="{}", MaxNow=0, AllowOpen="TRUE",
+                      AllowFin="TRUE", AllowRst="TRUE", GenDepth=100, AnyW="FALSE"),
+        "subst": {"Setup": "ISetup", "Alpha": "IAlpha"},
+        "quick": dict(MaxEnv=3),
+        "gen": dict(REAL, MaxEnv=9, MaxQ=2),
+        "invariants": ["IUniqueIds", "IIdsValid"],
+        "properties": ["PConnectOutcome", "PInfoHonest", "PConnectAck", "PNoAckOtherwise", "PSeqGapFree",
+                       "PNoTrace", "PClosedAtMostOnce", "POneClosedNotice", "PReusable"],
     },
 }
 
@@ -46,11 +59,10 @@ def render(name: str, tier: str = "thorough", gen: bool = False, extra: Dict[str
         lines.append(f"  {k} <- {v}")
     if gen:
         lines.append("INVARIANT GenInv")
-    else:
-        for i in fam.get("invariants", []):
-            lines.append(f"INVARIANT {i}")
-        for p in fam.get("properties", []):
-            lines.append(f"PROPERTY {p}")
+    for i in fam.get("invariants", []):
+        lines.append(f"INVARIANT {i}")
+    for p in fam.get("properties", []):
+        lines.append(f"PROPERTY {p}")
     lines.append("CHECK_DEADLOCK FALSE")
     outdir = outdir or tempfile.mkdtemp(prefix="cfg_")
     path = os.path.join(outdir, f"{fam['module']}_{tier}{'_gen' if gen else ''}.cfg")
